@@ -172,6 +172,8 @@ fn job_with_tapes(prop: &str, seed: u64, run: u64, tapes: Tapes) -> Job {
         want_tapes: false,
         want_scenario: true,
         cpu: None,
+        oracle: None,
+        scenario: None,
     }
 }
 
@@ -414,6 +416,34 @@ struct Agg {
     runs_with_panic: u64,
 }
 
+/// a compact, human-readable rendering of a scenario for the evidence file (element lists are
+/// summarised; replay files hold the tapes that regenerate everything)
+pub fn sample_of(sc: &Scenario) -> serde_json::Value {
+    use crate::plan::Src;
+    let sources: Vec<serde_json::Value> = sc
+        .sources
+        .iter()
+        .map(|s| match s {
+            Src::Iter(v) => json!({"kind": "IteratorSource", "elements": v.len(), "first": v.iter().take(2).map(|e| json!({"id": e.id, "key": e.key, "v": e.v, "pad_bytes": e.pad.len()})).collect::<Vec<_>>()}),
+            Src::ParIter(v) => json!({"kind": "ParallelIteratorSource", "elements": v.len(), "first": v.iter().take(2).map(|e| json!({"id": e.id, "key": e.key, "v": e.v, "pad_bytes": e.pad.len()})).collect::<Vec<_>>()}),
+            Src::Scripted(scr, r) => json!({"kind": "ScriptedSource", "replication": format!("{:?}", r), "script_lengths": scr.iter().map(|x| x.len()).collect::<Vec<_>>(), "first_script_head": scr.first().map(|x| x.iter().take(6).map(|ev| format!("{:?}", ev)).map(|s| s.chars().take(90).collect::<String>()).collect::<Vec<_>>())}),
+            Src::Channel(b) => json!({"kind": "ChannelSource", "bursts": b.iter().map(|(p, v)| json!({"pause_us": p, "elements": v.len()})).collect::<Vec<_>>()}),
+            Src::File(c) => json!({"kind": "FileSource", "bytes": c.len(), "head": String::from_utf8_lossy(&c[..c.len().min(60)])}),
+            Src::Csv(c, h) => json!({"kind": "CsvSource", "bytes": c.len(), "has_headers": h, "head": String::from_utf8_lossy(&c[..c.len().min(60)])}),
+            Src::Range(a, b) => json!({"kind": "Range", "start": a, "end": b}),
+        })
+        .collect();
+    json!({
+        "family": sc.family,
+        "layout": format!("{:?}", sc.layout),
+        "batch_mode": format!("{:?}", sc.bm),
+        "sources": sources,
+        "plan": sc.steps.iter().map(crate::plan::step_brief).collect::<Vec<_>>(),
+        "knobs": sc.knobs,
+        "crash": sc.crash,
+    })
+}
+
 pub fn check_main(args: &[String]) -> i32 {
     if args.is_empty() {
         eprintln!("check: missing property id");
@@ -447,7 +477,36 @@ pub fn check_main(args: &[String]) -> i32 {
             want_tapes: false,
             want_scenario: r < 3,
             cpu: None,
+            oracle: None,
+            scenario: None,
         });
+    }
+    // witness scenarios of known findings: a handful of schedules each, so that the finding is
+    // reported (as KNOWN-FINDING) for as long as the defect exists
+    if let Ok(rd) = std::fs::read_dir(known::verif_root().join("witness")) {
+        let mut files: Vec<_> = rd.flatten().map(|e| e.path()).collect();
+        files.sort();
+        for (wi, f) in files.iter().enumerate() {
+            let Ok(txt) = std::fs::read_to_string(f) else { continue };
+            let Ok(v) = serde_json::from_str::<serde_json::Value>(&txt) else { continue };
+            if v["property"].as_str() != Some(prop.as_str()) {
+                continue;
+            }
+            let Ok(sc) = serde_json::from_value::<Scenario>(v["scenario"].clone()) else { continue };
+            for k in 0..6u64 {
+                jobs.push(Job {
+                    prop: prop.clone(),
+                    seed,
+                    run: 1_000_000 + (wi as u64) * 100 + k,
+                    tapes: None,
+                    want_tapes: false,
+                    want_scenario: false,
+                    cpu: None,
+                    oracle: None,
+                    scenario: Some(sc.clone()),
+                });
+            }
+        }
     }
     let agg = Mutex::new(Agg::default());
     run_batch(jobs, |_job, rep| {
@@ -490,7 +549,7 @@ pub fn check_main(args: &[String]) -> i32 {
         }
         if a.samples.len() < 3 {
             if let Some(sc) = &rep.scenario {
-                a.samples.push(json!({"run": rep.run, "verdict": rep.verdict, "steps": rep.steps, "threads": rep.threads, "virtual_time_ns": rep.vtime_ns, "scenario": sc}));
+                a.samples.push(json!({"run": rep.run, "verdict": rep.verdict, "steps": rep.steps, "threads": rep.threads, "virtual_time_ns": rep.vtime_ns, "scenario": sample_of(sc)}));
             }
         }
         for v in &rep.violations {
@@ -707,6 +766,8 @@ pub fn one_main(args: &[String]) -> i32 {
         want_tapes: false,
         want_scenario: true,
         cpu: None,
+        oracle: arg_val(args, "--oracle"),
+        scenario: arg_val(args, "--scenario").and_then(|p| std::fs::read_to_string(p).ok()).and_then(|s| serde_json::from_str(&s).ok()),
     };
     let rep = worker::execute(&job);
     println!("{}", rep.brief);
@@ -758,6 +819,8 @@ pub fn selftest_main(args: &[String]) -> i32 {
                     want_tapes: false,
                     want_scenario: false,
                     cpu: None,
+            oracle: None,
+            scenario: None,
                 });
             }
         }
